@@ -369,6 +369,8 @@ pub struct Report {
     pub counters: BTreeMap<String, u64>,
     pub maxima: BTreeMap<String, i64>,
     pub sets: BTreeMap<String, HashSet<u64>>,
+    /// members counted instead of stored, for sets whose members are distinct by construction
+    pub counted_sets: BTreeMap<String, u64>,
     pub samples: Vec<Json>,
     pub sample_cap: usize,
     pub violations: Vec<Violation>,
@@ -405,6 +407,10 @@ impl Report {
             s.insert(h);
             self.sets.insert(set.to_string(), s);
         }
+    }
+    /// adds `n` members that are distinct by construction (case indices, enumerated tuples) without storing them
+    pub fn see_counted(&mut self, set: &str, n: u64) {
+        *self.counted_sets.entry(set.to_string()).or_insert(0) += n;
     }
     pub fn see_str(&mut self, set: &str, member: &str) {
         self.see(set, hash_str(member));
@@ -454,6 +460,9 @@ impl Report {
         for (k, v) in other.sets {
             self.sets.entry(k).or_default().extend(v);
         }
+        for (k, v) in other.counted_sets {
+            *self.counted_sets.entry(k).or_insert(0) += v;
+        }
         for s in other.samples {
             if self.samples.len() < self.sample_cap.max(6) {
                 self.samples.push(s);
@@ -476,7 +485,11 @@ impl Report {
     pub fn to_json(&self, engine: &str, wall_s: f64) -> Json {
         let counters = Json::Obj(self.counters.iter().map(|(k, v)| (k.clone(), Json::from(*v))).collect());
         let maxima = Json::Obj(self.maxima.iter().map(|(k, v)| (k.clone(), Json::from(*v))).collect());
-        let sets = Json::Obj(self.sets.iter().map(|(k, v)| (k.clone(), Json::from(v.len()))).collect());
+        let mut set_sizes: BTreeMap<String, u64> = self.sets.iter().map(|(k, v)| (k.clone(), v.len() as u64)).collect();
+        for (k, v) in &self.counted_sets {
+            *set_sizes.entry(k.clone()).or_insert(0) += *v;
+        }
+        let sets = Json::Obj(set_sizes.iter().map(|(k, v)| (k.clone(), Json::from(*v))).collect());
         let viols = Json::Arr(
             self.violations
                 .iter()
